@@ -3,5 +3,5 @@
 P="$1"; shift
 git -C /repo apply "$P" || { echo "PATCH DOES NOT APPLY"; exit 3; }
 for c in "$@"; do /verif/check $c --no-write | grep -E "^(VIOLATION|REFUTED|ANALYSIS|== .*exit)" | cut -c1-400; done
-git -C /repo checkout -- .
+git -C /repo checkout -- .; git -C /repo clean -fdq -- optimism
 git -C /repo status --short | head -3
